@@ -202,6 +202,10 @@ func c16Lists(w world) (bases [][]string) {
 		{w.root.Ext(), ch[2].Ext()}, // nested
 		{w.root.Ext(), ref.Vox{H: h + 1, X: w.root.X, Y: w.root.Y, V: v, F: w.root.F}.Ext(), ref.Vox{H: h, X: w.root.X, Y: w.root.Y, V: v + 1, F: w.root.F}.Ext()}, // same numbers at other zooms
 	}
+	// a vertical stack with gaps, listed bottom, top, middle (a later entry falls between two earlier ones)
+	if a, b := w.root.Shift(0, 0, 4), w.root.Shift(0, 0, 2); a.Valid() && b.Valid() {
+		bases = append(bases, []string{w.root.Ext(), a.Ext(), b.Ext()})
+	}
 	if w.twin != nil {
 		bases = append(bases, []string{w.root.Ext(), w.twin.Ext()}, []string{ch[0].Ext(), w.twin.ChangeZoom(h, v+1)[0].Ext(), w.twin.Ext()})
 	}
@@ -260,7 +264,7 @@ func init() {
 		Technique: "stateless exploration (E1) with the Go runtime's map-iteration start owned as an environment choice: for every operation x argument list x permutation/duplication, all executions with at most 1 (quick) / 2 (thorough) deviations from the default iteration start, each compared with the default-order result of the base list",
 		Assumptions: []string{
 			"map-order exploration enumerates start bucket x offset of every map iteration under fixed hash seeds (what the runtime does), not all permutations the language allows",
-			"argument lists beyond the listed shapes (<= 3 distinct elements, the complete sibling group, nested and twin pairs) are not covered",
+			"argument lists beyond the listed shapes (<= 3 distinct elements, the complete sibling group, nested and twin pairs, a vertical stack with gaps) are not covered",
 		},
 		Phases: func(tier string) []engine.Phase {
 			ws := worlds(tier)
